@@ -23,7 +23,7 @@ Lin2(loglen) == [width |-> 2, log_len |-> loglen,
                  periodic |-> <<>>, init |-> <<1, 1>>, exemptions |-> 1,
                  asserts |-> <<Single(0, 0), Single(1, 2 ^ loglen - 1)>>, aux |-> <<>>, meta |-> <<>>]
 \* opaque trace metadata longer than two field elements (non-zero bytes)
-MetaBytes(n) == [i \in 1..n |-> (i * 37) % 251 + 1]
+MetaBytes(n) == [j \in 1..n |-> ((j * 37) % 251) + 1]
 LinM(loglen, n) == [Lin2(loglen) EXCEPT !.meta = MetaBytes(n)]
 \* next0 = c0*c1 + 3 ; next1 = c1 + 1                 (degree 2)
 Mul2(loglen, meta) == [width |-> 2, log_len |-> loglen,
